@@ -18,6 +18,7 @@ transport read, the room (`Reserved()`) that was offered.
 -/
 import Sonic.Model.WsFrame
 import Sonic.Model.WsStream
+import Sonic.Spec.WsMessages
 
 namespace Sonic.Model.WsMsg
 open Sonic.Model.WsBuf Sonic.Model.WsFrame Sonic.Spec.WsStream
@@ -173,5 +174,20 @@ empty segments are never queued. -/
 def segments : List Nat → List UInt8 → List (List UInt8)
   | [], bs => if bs.isEmpty then [] else [bs]
   | n :: r, bs => if n = 0 ∨ bs.isEmpty then segments r bs else bs.take n :: segments r (bs.drop n)
+
+/-! ## What the harness prints for a `read` operation -/
+
+/-- The model has no memory outside `b[:n]`: `clean` is always true here; that the real code leaves the caller's buffer
+beyond `n` alone is checked on the implementation only (sentinel bytes in the harness). -/
+def msgOutOf (x : Err × Asm) : Spec.WsMessages.MsgOut :=
+  { err := x.1, ty := x.2.ty, n := x.2.n, data := x.2.data, clean := true, ctl := x.2.ctl }
+
+def frameOutOf (x : Err × Option InFrame) : Spec.WsMessages.FrameOut := { err := x.1, f := x.2 }
+
+/-- One reader on a fresh stream: the observation, and the final state (for the transport-read log). -/
+def observe (api : Spec.WsMessages.Api) (async : Bool) (buf k : Nat) (w : W) : X (Spec.WsMessages.Obs × W) :=
+  match api with
+  | .frame => (runFrames async k w).map fun x => (.frames (x.1.map frameOutOf), x.2)
+  | .msg => (runMsgs async buf k w).map fun x => (.msgs (x.1.map msgOutOf), x.2)
 
 end Sonic.Model.WsMsg
